@@ -49,6 +49,6 @@ Qed.
 
 (* Python operators occurring as lambda bodies in maps.OPERATOR_MAP *)
 Inductive binop := OpAdd | OpSub | OpMul | OpDiv | OpMod | OpXor | OpBitAnd | OpBitOr | OpShl | OpShr
-  | OpFloorDiv | OpPow | OpEq | OpNe | OpLt | OpGt | OpLe | OpGe | OpAnd | OpOr.
+  | OpFloorDiv | OpPow | OpEq | OpNe | OpLt | OpGt | OpLe | OpGe | OpAnd | OpOr | OpLAnd | OpLOr.
 Inductive unop := OpInvert | OpNot | OpNeg | OpPos.
 Inductive pyop := Bin (o : binop) | Un (o : unop).
